@@ -133,6 +133,9 @@ def bits(v, n):
 # tree): they guard the parser's desugarings, which the AST-level oracles (Sem.v, TSem) cannot see.  Every program ignores
 # its input, so the expected output is one bit string.
 GOLDEN = [
+    # fix 64720dd: nested unsuffixed literals take the constrained type (values, not only widths)
+    ("golden-nested-literals-typed", "pub fn main(z: u8) -> (u8, u8, i16) { let k = 5u8; let y = 1 + 2 + k; let s = 200u8 >> (1 + (if k == 5u8 { 1 } else { 2 })); (y, s, (1 + 2) * 3 + 10i16) }",
+     bits(8, 8) + bits(50, 8) + bits(19, 16), None),
     # fix 7bf4e4f: an unsuffixed range used at a typed array has elements of that type
     ("golden-unsuffixed-range-typed", "pub fn main(z: u8) -> ([u8; 3], u16) { let a: [u8; 3] = 2..5; let b: [u16; 2] = 300..302; (a, b[1usize]) }",
      bits(2, 8) + bits(3, 8) + bits(4, 8) + bits(301, 16), None),
